@@ -118,6 +118,16 @@ def gen_complex_dtypes(repo):
     return m
 
 
+def gen_scaling(repo):
+    m = T.Module(f"{repo}/src/nitypes/waveform/_scaling/_linear.py", "Gen.Scaling")
+    m.translate_kind_assignments("LinearScaleMode", "__init__", ["_gain", "_offset"])
+    m.translate_float_expr_method("LinearScaleMode", "_transform_data", "LinearScaleMode.transform", ["data", "gain", "offset"])
+    m2 = T.Module(f"{repo}/src/nitypes/waveform/_scaling/_none.py", "Gen.Scaling")
+    m2.translate_float_expr_method("NoneScaleMode", "_transform_data", "NoneScaleMode.transform", ["data"])
+    m.out += m2.out
+    return m
+
+
 def gen_digital_state(repo):
     m = T.Module(f"{repo}/src/nitypes/waveform/_digital/_state.py", "Gen.DigitalState")
     m.translate_table_constants(["_CHAR_TABLE", "_STATE_TEST_TABLE"])
@@ -142,6 +152,7 @@ MODULES = [
      ["TimeValueTuple", "TimeDelta"]),
     ("BtDtypes", lambda repo, deps: gen_bt_dtypes(repo), []),
     ("ComplexDtypes", lambda repo, deps: gen_complex_dtypes(repo), []),
+    ("Scaling", lambda repo, deps: gen_scaling(repo), []),
     ("DigitalState", lambda repo, deps: gen_digital_state(repo), []),
     ("Port", lambda repo, deps: gen_port(repo), []),
 ]
